@@ -111,6 +111,21 @@ func Open(dir string, opts ...walOpt) (*WAL, error) {
 		return nil, err
 	}
 
+	// If we fail from here on, don't leak the meta DB (which holds a lock on its
+	// file so a later Open of the same dir would block forever) or any segment
+	// files we opened.
+	var opened []io.Closer
+	success := false
+	defer func() {
+		if success {
+			return
+		}
+		w.closeSegments(opened)
+		if err := w.metaDB.Close(); err != nil {
+			w.log.Error("error closing meta store after failed open", "err", err)
+		}
+	}()
+
 	// Load or create metaDB
 	persisted, err := w.metaDB.Load(w.dir)
 	if err != nil {
@@ -164,6 +179,7 @@ func Open(dir string, opts ...walOpt) (*WAL, error) {
 			if err != nil {
 				return nil, err
 			}
+			opened = append(opened, sw)
 			// Set the tail and "reader" for this segment
 			ss := segmentState{
 				SegmentInfo: si,
@@ -185,6 +201,7 @@ func Open(dir string, opts ...walOpt) (*WAL, error) {
 		if err != nil {
 			return nil, err
 		}
+		opened = append(opened, sr)
 
 		// Store the open reader to get logs from
 		ss := segmentState{
@@ -221,6 +238,7 @@ func Open(dir string, opts ...walOpt) (*WAL, error) {
 		if err != nil {
 			return nil, err
 		}
+		opened = append(opened, w)
 		newState.tail = w
 		// Update the segment in memory so we have a reader for the new segment. We
 		// don't need to commit again as this isn't changing the persisted metadata
@@ -260,6 +278,7 @@ func Open(dir string, opts ...walOpt) (*WAL, error) {
 	verifhook.At("rotate.spawn", w.dir)
 	go w.runRotate()
 
+	success = true
 	return w, nil
 }
 
